@@ -99,6 +99,34 @@ SetState(s, addr, ty, v) == LET p == Param(addr) IN
   ELSE LET nv == Stored(p, ty, v) IN After(PutV(s, p, nv), addr, nv # GetV(s, p))
 Numeric(p) == p.kind \in {"c", "i", "I", "f", "o"}
 EvType(p) == CASE p.kind = "c" -> "c" [] p.kind \in {"i", "I", "o"} -> "i" [] p.kind = "f" -> "f" [] p.kind = "s" -> "s" [] OTHER -> "T"
+\* ------------------------------------------------------------------ subtree_serialize / subtree_deserialize (C08, src/cpp/subtree-serialize.cpp)
+\* The serialiser walks the table WITHOUT a runtime object (enabling toggles are not consulted; a null pointer sub-tree simply does
+\* not answer), queries every concrete leaf address in table order - arrays and enumerated sub-trees expanded - and appends each
+\* reply to a bundle with a fixed time tag.  The deserialiser dispatches the elements in that order into the given object.
+SubSerAddrs(c) == << c \o "/si", c \o "/sf", c \o "/st", c \o "/sa0", c \o "/sa1" >>
+SerAddrs == << "/pc", "/pi", "/pn", "/pf", "/pg", "/pt", "/po", "/ps", "/preset", "/dep", "/mode", "/dep2", "/chain", "/tg", "/dep3",
+               "/ai0", "/ai1", "/ai2", "/af0", "/af1", "/af2", "/at0", "/at1", "/al0", "/al1", "/al2", "/al3", "/al4", "/al5", "/al6", "/al7",
+               "/fx_on", "/fx/gain", "/fx/level", "/fx/type", "/fx/voice0/vol", "/fx/voice1/vol", "/sub_on" >>
+            \o SubSerAddrs("/sub") \o SubSerAddrs("/subs0") \o SubSerAddrs("/subs1") \o << "/palloc" >> \o SubSerAddrs("/psub")
+SerTimeTag == << 57005, 48879, 2571, 3085 >>                                    \* 0xdeadbeef0a0b0c0d as four 16-bit limbs
+\* the elements: address, the type the port answers with, the stored value
+SerElems(s) == LET live == SelectSeq(SerAddrs, LAMBDA a : Exists(s, Param(a))) IN
+               [i \in 1..Len(live) |-> LET p == Param(live[i]) v == GetV(s, p) IN
+                  [addr |-> live[i], ty |-> (IF p.kind = "T" THEN (IF v THEN "T" ELSE "F") ELSE EvType(p)), v |-> IF p.kind = "T" THEN 0 ELSE v]]
+RECURSIVE ApplySets(_, _)
+ApplySets(s, es) == IF es = <<>> THEN s ELSE ApplySets(SetState(s, Head(es).addr, Head(es).ty, Head(es).v), Tail(es))
+Deserialized(s) == ApplySets(Default, SerElems(s))
+\* the design law the library's own comment hints at ("replayed to get an object to a previous state"): replaying restores the state
+\* unless a port stands in the table BEFORE a port whose change callback re-initialises it (here: /fx/level before /fx/type)
+SerRoundTripHolds(s) == s.fx.null \/ s.fx.level = FxLevelDefault(s.fx.type)
+\* 32-bit two's complement and IEEE-754 single images as two 16-bit limbs (floats are q/4 with |q| < 2^24, hence exact)
+IntLimbs(v) == IF v >= 0 THEN << v \div 65536, v % 65536 >> ELSE << 65535 - ((0 - v - 1) \div 65536), 65535 - ((0 - v - 1) % 65536) >>
+RECURSIVE Log2Floor(_)
+Log2Floor(a) == IF a < 2 THEN 0 ELSE 1 + Log2Floor(a \div 2)
+Pow2(n) == IF n = 0 THEN 1 ELSE LET RECURSIVE P(_) P(k) == IF k = 0 THEN 1 ELSE 2 * P(k - 1) IN P(n)
+FloatLimbs(q) == IF q = 0 THEN << 0, 0 >>
+                 ELSE LET a == IF q < 0 THEN 0 - q ELSE q  e == Log2Floor(a)  man == (a - Pow2(e)) * Pow2(23 - e)  bexp == 127 + e - 2 IN
+                      << (IF q < 0 THEN 32768 ELSE 0) + bexp * 128 + (man \div 65536), man % 65536 >>
 \* ------------------------------------------------------------------ savefile (C12)
 \* reachable: not below a disabled or null sub-tree
 Reachable(s, p) == CASE p.where \in {"fx", "fxv"} -> s.fx_on /\ ~ s.fx.null [] p.where = "sub" -> s.sub_on [] p.where = "psub" -> s.palloc /\ ~ s.psub.null [] OTHER -> TRUE
